@@ -146,6 +146,21 @@ CHECKS = {
         note='Trusted base: rtverif/grammar.py (validated on every text the generators print); rejection of a '
              'derivable text with RTAMTException is not a violation.',
         ref='DESIGN.md §7 C14'),
+    'C06': dict(
+        technique='reference-model monitor with a predicate override per IA semantics (io-assignment aware) against '
+                  'the real monitors of the 4 kinds; io-flip metamorphic run under STANDARD',
+        text='Exploration over generated formulas x 5 semantics x random io assignments x 4 monitor kinds.',
+        note='Trusted base: ref_discrete/ref_dense + the 20-line override in props/c06.py; io types set before '
+             'parse().',
+        ref='DESIGN.md §7 C06'),
+    'C07': dict(
+        technique='independent Boolean evaluator (two-point lattice) vs the sign of every value the real monitors '
+                  'return; perturbation monitor: traces within the reported robustness ball must keep the verdict',
+        text='Exploration over iff/xor-free Boolean-typed formulas on the 4 monitor kinds; 8 (quick) / 32 (thorough) '
+             'perturbations per case (corners + interior points), not the whole ball.',
+        note='Trusted base: rtverif/ref_bool.py (shares the temporal evaluator with the quantitative reference, '
+             'predicates mapped to +-1 with strictness).',
+        ref='DESIGN.md §7 C07'),
 }
 
 NOT_APPLICABLE = {}
